@@ -228,6 +228,16 @@ package ftp
 //@   ensures [fs-driver] typeis(result, *ftpService) && unbox(result, *ftpService) != nil && typeis(unbox(result, *ftpService).driver, *Fs) && unbox(unbox(result, *ftpService).driver, *Fs) != nil
 //@   modifies *
 //
+// A session's connection object and its control-channel reader and writer are the session's own: allocated by
+// newConn for this connection, never taken from anything that outlives a session (property C03: a reply is
+// written to the connection of the session that caused it).
+//@ func (*Server).newConn
+//@   inline
+//@   check post
+//@   ensures [own-session] fresh(result) && result.conn == tcpConn && result.rcv == recv
+//@   ensures [own-buffers] fresh(result.controlReader) && fresh(result.controlWriter)
+//@   modifies *
+//
 //@ func (*ftpService).Handle
 //@   requires conn != nil && typeis(s.driver, *Fs) && unbox(s.driver, *Fs) != nil
 //@   physical unbox(s.driver, *Fs).Htfs != nil
